@@ -16,7 +16,9 @@ type Gen struct {
 	Wild  float64 // probability of an ill-formed choice at each opportunity
 }
 
-var plainStrings = []string{"a", "bob", "x1", "Ünï", "日本", "user.name", "a b", "q\"uo\\te", "tab\there", "nl\nline", "😀", "<&>", "é", "null", "0"}
+var plainStrings = []string{"a", "bob", "x1", "Ünï", "日本", "user.name", "a b", "q\"uo\\te", "tab\there", "nl\nline", "😀", "<&>", "é", "null", "0",
+	// characters on which Go string syntax and JSON string syntax differ, and the edges of Unicode
+	"bel\a", "vt\v", "esc\x1b[0m", "nul\x00", "del\x7f", "tag\U000E0001", "max\U0010FFFF", "ls\u2028ps\u2029", "bom\ufeff", "pua\U000F0000"}
 var sepStrings = []string{"a@b", "a/b", "a+b", "@", "/", "+", "a@b@c", "x/y/z", "@/", ""}
 
 func (g *Gen) wild() bool { return g.R.Float64() < g.Wild }
